@@ -283,6 +283,20 @@ theorem request_checks (look : Mod → Par → Option ParInfo) (w : Bool) (m : M
   | some i =>
     cases w <;> cases hc : i.constant <;> cases hr : i.readonly <;> cases hh : i.hasRead <;> simp [hc, hr, hh]
 
+/-- A request the handler refuses as malformed on its first lines (`activate` / `deactivate` / `read` with data, `read` /
+`change` without specifier) does nothing: once it holds `_lock` its only continuation is the error reply — tables, cache and
+trace are untouched — and it ends no activation (`ends`), whatever it names. -/
+theorem malformed_request_refused (cfg : Cfg) (σ : State) (c : Conn) (a s : Name) (hpc : σ.hpc c = .start (.malformed a s))
+    (hd : σ.disp = none) :
+    (∃ σ', step cfg σ ⟨.h c, 0⟩ = some σ' ∧ σ'.hpc c = .relDisp (.malformed a s) false ∧ σ'.active = σ.active ∧
+      σ'.subs = σ.subs ∧ σ'.cache = σ.cache ∧ σ'.trace = σ.trace) ∧ ∀ x, ends (.malformed a s) x = false := by
+  constructor
+  · have h : step cfg σ ⟨.h c, 0⟩ =
+        some { σ with disp := some c, hpc := set σ.hpc c (.relDisp (.malformed a s) false) } := by
+      simp [step, stepH, hpc, hd, validReq]
+    exact ⟨_, h, by simp, rfl, rfl, rfl, rfl⟩
+  · intro x; rfl
+
 /-- The string tests of `Dispatcher.unsubscribe` (`':' in`, `startswith(f'{eventname}:')`, exact key) remove exactly the
 subscriptions the deactivation matches — for ALL names, in particular names that are string prefixes of one another
 (`T` / `T2`, `target` / `target_max`): a scope that is not matched keeps its table entry, nobody else's entry changes. -/
@@ -555,6 +569,17 @@ example : let look : Mod → Par → Option ParInfo := fun m p =>
     (rwKindOf look true mT pTarget, rwKindOf look false mT pTarget, rwKindOf look true mT pTargetMax,
      rwKindOf look false mT pTargetMax, rwKindOf look false mT2 pTarget) = (.calls, .plain, .refuse, .calls, .refuse) := by
   decide +kernel
+
+/-- `deactivate T` with data is refused and ends nothing: the module activation stays in force, the update stored afterwards
+is delivered -/
+def exInit11 : State :=
+  init (fun c => if c = 1 then [.activate (.mod mT), .malformed ['d', 'e', 'a', 'c', 't'] ['T']] else [])
+       (fun k => if k = 2 then [(mT, pTarget, .val 1 1)] else []) (fun _ _ => .val 0 0)
+
+example : ((run exCfg exInit11 (List.replicate 17 ⟨.h 1, 0⟩ ++ [⟨.u 2, 0⟩, ⟨.u 2, 0⟩, ⟨.u 2, 1⟩, ⟨.u 2, 0⟩, ⟨.u 2, 0⟩])).map (fun σ =>
+      (σ.trace.drop 4, finished σ (.h 1), listens σ 1 mT pTarget))) =
+    some ([.reqStart 1 (.malformed ['d', 'e', 'a', 'c', 't'] ['T']), .reply 1 (.malformed ['d', 'e', 'a', 'c', 't'] ['T']) false,
+           .emit 2 mT pTarget (.val 1 1), .deliver 1 mT pTarget (.val 1 1), .emitDone 2], true, true) := by rfl
 
 /-- a `change` takes `accessLock` twice, a `write_` function that raises announces nothing and the reply is an error report -/
 def exInit8 : State :=
